@@ -418,7 +418,13 @@ def r5_server_context(ck, cx):
         if single:
             seen_single += 1
             v = st.heap.get('self._slaves')
-            ok = isinstance(v, ast.Dict) and len(v.keys) == 1 and cx.ce.try_ev(v.keys[0], c.mod, c) == want
+            keys_ = None
+            if isinstance(v, ast.Dict):
+                keys_ = list(v.keys)
+            elif isinstance(v, ast.Call) and callee_name(v) == 'dict' and len(v.args) == 1 and isinstance(v.args[0], (ast.List, ast.Tuple)) \
+                    and all(isinstance(x, (ast.Tuple, ast.List)) and len(x.elts) == 2 for x in v.args[0].elts):
+                keys_ = [x.elts[0] for x in v.args[0].elts]          # dict([(key, value)])
+            ok = keys_ is not None and len(keys_) == 1 and cx.ce.try_ev(keys_[0], c.mod, c) == want
             ck.ob('R5', i.qn, 'single mode stores the one context under Defaults.UnitId', ok,
                   detail='single-init ' + (U(v)[:60] if v is not None else 'unset'), loc=cx.floc(i))
     ck.ob('R5', i.qn, 'constructor distinguishes single mode', seen_single > 0, detail='no-single-branch-in-init', loc=cx.floc(i))
@@ -479,7 +485,16 @@ def r6_table_isolation(ck, cx, rule='R6'):
             elif isinstance(v, ast.BoolOp) and isinstance(v.op, ast.Or):
                 d = v.values[-1]
             elif isinstance(v, ast.IfExp):
-                d = v.orelse if 'None' in U(v.test) and ' is None' not in U(v.test) else v.body
+                # the default is the branch that is not taken from the caller's arguments
+                kwn = f.node.args.kwarg.arg if f.node.args.kwarg is not None else None
+                def _from_args(x):
+                    return any(isinstance(n_, ast.Name) and (n_.id == kwn or n_.id in f.params[1:]) for n_ in ast.walk(x))
+                if _from_args(v.body) and not _from_args(v.orelse):
+                    d = v.orelse
+                elif _from_args(v.orelse) and not _from_args(v.body):
+                    d = v.body
+                else:
+                    d = v.orelse if 'None' in U(v.test) and ' is None' not in U(v.test) else v.body
             # trace a local name back to the statement that bound it
             at, hops = i, 0
             while isinstance(d, ast.Name) and d.id not in params and hops < 5:
@@ -570,7 +585,8 @@ def r6_table_isolation(ck, cx, rule='R6'):
     rets = [r for r in ast.walk(cr.node) if isinstance(r, ast.Return)]
     ck.ob(rule, cr.qn, 'create() builds a new block from a new list on every call',
           len(rets) == 1 and isinstance(rets[0].value, ast.Call) and U(rets[0].value.func) == cr.params[0] and
-          all(not isinstance(a, (ast.Name, ast.Attribute)) for a in rets[0].value.args),
+          all(not isinstance(a, (ast.Name, ast.Attribute)) or isinstance(cx.ce.try_ev(a, cr.mod, sq, default=None), (int, str, bytes, float))
+              for a in rets[0].value.args),
           detail='create-not-fresh', loc=cx.floc(cr))
 
 
